@@ -22,7 +22,7 @@ KINDS = {
 SAME = ["absent", "right", "subclass", "wrong", "falsy", "none"]
 PREF = ["absent", "right", "wrong"]
 WHERE = ["class", "createObjects", "base-class", "base-createObjects"]
-SIDE = ["novalue", "preset", "init", "private", "inherited"]
+SIDE = ["novalue", "preset", "init", "private", "inherited", "inherited-preset", "also-ctor-param"]
 ENTITY = ["attr", "ctor", "mode"]
 
 PRELUDE = ""
@@ -108,6 +108,14 @@ def build_source(sc):
             if sc["side"] == "inherited":
                 src += f"class CBase:\n    {attr}: {ann}\n"
                 src += "class K_c0(CBase):\n"
+            elif sc["side"] == "inherited-preset":
+                # the value is preset on a base class of the component (found through the MRO, not in the class itself)
+                src += f"class CRoot:\n    {attr}: {ann} = _mk('preset', {value_src(sc['kind'], 'right')})\nclass CBase(CRoot):\n    pass\n"
+                src += "class K_c0(CBase):\n"
+            elif sc["side"] == "also-ctor-param":
+                # the same name is a constructor parameter (not stored by the constructor) and an annotated attribute
+                src += "class K_c0:\n"
+                body += f"    {attr}: {ann}\n    def __init__(self, {attr}: {ann}):\n        self.seen_by_ctor = {attr}\n"
             else:
                 src += "class K_c0:\n"
                 body += f"    {attr}: {ann}\n" if sc["side"] != "preset" else f"    {attr}: {ann} = _mk('preset', {value_src(sc['kind'], 'right')})\n"
@@ -172,7 +180,7 @@ def model(sc):
     if sc["group"] == "main":
         if sc["entity"] == "attr" and sc["side"] == "private":
             return ("untouched", MISSING)
-        if sc["entity"] == "attr" and sc["side"] == "preset":
+        if sc["entity"] == "attr" and sc["side"] in ("preset", "inherited-preset"):
             return ("untouched", "preset")
         if sc["entity"] == "attr" and sc["side"] == "init":
             return ("untouched", "init")
